@@ -874,7 +874,15 @@ rv = .false.
                     )
 
                 if subprogram == "function":
-                    arg_c_decl.append(ast.bind_c(name=key, params=None))
+                    # The result of the function pointer,
+                    # not of the function which has it as an argument.
+                    arg_c_decl.append(arg.gen_arg_as_fortran(
+                        bindc=True, local=True, name=key))
+                    self.update_f_module(
+                        modules,
+                        imports,
+                        arg.typemap.f_c_module or arg.typemap.f_module,
+                    )
                 arguments = ",\t ".join(arg_f_names)
                 if node.options.literalinclude:
                     iface.append("! start abstract " + key)
